@@ -9,6 +9,10 @@ Rules are written against this normal form, so that two spellings of the same co
 
   N3  nested ifs   `if a: if b: X` (no else on either)                          ==   `if a and b: X`
   N4  negations    `not (a and b)` / `not (a or b)` / `not not a` in tests      ==   `not a or not b` / `not a and not b` / `a`
+  N7  conditional expressions deciding the value of a statement
+                   `return A if c else B` / `o.a = A if c else B`               ==   `if c: return A` + `return B` / `if c: o.a = A else: o.a = B`
+                   (a plain local `x = A if c else B` keeps its single definition)
+  (N5, N6: helpers and module constants unknown to the rule vocabulary are looked through, see the end of this file)
 
 are the same tree for every rule.  Both rewrites preserve behaviour; line numbers of the surviving nodes are kept, so
 reports still point at the real source lines."""
@@ -252,6 +256,11 @@ def _simple(e) -> bool:
     return isinstance(e, (ast.Name, ast.Constant)) or (isinstance(e, ast.Attribute) and _simple(e.value)) or (isinstance(e, ast.Starred) and _simple(e.value))
 
 
+# lifting a conditional expression out of the argument list of a call (`f(A if c else B)` -> `f(A) if c else f(B)`) is
+# behaviour-preserving but multiplies statements that rules count (one append per item, one division, ...): off.
+_LIFT_THROUGH_CALLS = False
+
+
 def _lift_ifexp(e):
     """(test, then-expression, else-expression) when `e` is a conditional expression, or a call / attribute access /
     unary or binary operation with exactly one conditional-expression operand evaluated first among its non-trivial
@@ -259,6 +268,8 @@ def _lift_ifexp(e):
     `f(a, X) if c else f(a, Y)`.  None otherwise."""
     if isinstance(e, ast.IfExp):
         return e.test, e.body, e.orelse
+    if not _LIFT_THROUGH_CALLS:
+        return None
     parts = []
     if isinstance(e, ast.Call):
         parts = [("func", None, e.func)] + [("args", i, a) for i, a in enumerate(e.args)] + [("keywords", i, k.value) for i, k in enumerate(e.keywords)]
@@ -307,7 +318,9 @@ def _ifexp_to_if(fn) -> int:
                 if isinstance(st, ast.Return) and st.value is not None:
                     got = _lift_ifexp(st.value)
                     mk = lambda v, st=st: ast.copy_location(ast.Return(value=v), st)
-                elif isinstance(st, ast.Assign) and all(_simple(t) for t in st.targets):
+                elif isinstance(st, ast.Assign) and all(isinstance(t, (ast.Attribute, ast.Subscript)) and _simple(t.value) for t in st.targets):
+                    # only stores into attributes / items: a plain local keeps its single definition (the conditional
+                    # expression), which is what flow-aware resolution of names relies on
                     got = _lift_ifexp(st.value)
                     mk = lambda v, st=st: ast.copy_location(ast.Assign(targets=[_clone_target(t) for t in st.targets], value=v), st)
                 elif isinstance(st, ast.Expr) and not isinstance(st.value, ast.Constant):
@@ -332,7 +345,7 @@ def _ifexp_to_if(fn) -> int:
 def normalise(tree: ast.AST) -> dict:
     stats = {"unelse": 0, "inlined_temporaries": 0, "merged_ifs": 0, "negations_pushed": 0, "ifexp_to_if": 0}
     import os
-    n7 = os.environ.get("VERIF_N7", "0") == "1"
+    n7 = os.environ.get("VERIF_N7", "1") == "1"
     for fn in [n for n in ast.walk(tree) if isinstance(n, (ast.FunctionDef, ast.AsyncFunctionDef))]:
         stats["inlined_temporaries"] += _inline_temps(fn)
         if n7:
